@@ -133,8 +133,8 @@ pub fn kind_of(s: &dyn Scenario, tier: Tier, idx: u64) -> RunKind {
 }
 
 /// Runs once, converting escaped panics into violations.
-pub fn run_guarded(s: &dyn Scenario, kind: RunKind, tape: Tape, log: bool) -> Result<(RunOut, Vec<u64>), String> {
-    match catch_unwind(AssertUnwindSafe(|| s.run(kind, tape, log))) {
+pub fn run_guarded(s: &dyn Scenario, kind: RunKind, tier: Tier, tape: Tape, log: bool) -> Result<(RunOut, Vec<u64>), String> {
+    match catch_unwind(AssertUnwindSafe(|| s.run(kind, tier, tape, log))) {
         Ok((out, tape)) => Ok((out, tape.rec)),
         Err(p) => {
             let msg = panic_message(&p);
@@ -208,7 +208,7 @@ pub fn check(s: &dyn Scenario, opts: &CheckOpts) -> i32 {
                     }
                     let kind = kind_of(s, opts.tier, idx);
                     let tape = Tape::generate(tape::mix(&[opts.seed, salt, idx]));
-                    match run_guarded(s, kind, tape, false) {
+                    match run_guarded(s, kind, opts.tier, tape, false) {
                         Err(msg) => {
                             *harness_err.lock().unwrap() = Some(format!("run {}: {}", idx, msg));
                             break;
@@ -275,9 +275,14 @@ pub fn check(s: &dyn Scenario, opts: &CheckOpts) -> i32 {
     if sweep > 1 {
         sample_idx.push(sweep / 2);
     }
+    if sweep > 3 {
+        sample_idx.push(sweep / 3);
+        sample_idx.push(sweep - 1);
+    }
     if random > 0 {
         sample_idx.push(sweep);
         sample_idx.push(sweep + random / 2);
+        sample_idx.push(sweep + random - 1);
     }
     for idx in sample_idx {
         if idx >= total_runs {
@@ -285,7 +290,10 @@ pub fn check(s: &dyn Scenario, opts: &CheckOpts) -> i32 {
         }
         let kind = kind_of(s, opts.tier, idx);
         let tape = Tape::generate(tape::mix(&[opts.seed, salt, idx]));
-        if let Ok((out, rec)) = run_guarded(s, kind, tape, true) {
+        if let Ok((out, rec)) = run_guarded(s, kind, opts.tier, tape, true) {
+            if out.log.is_empty() {
+                continue;
+            }
             let mut lines = out.log;
             let n = lines.len();
             if n > 30 {
@@ -317,7 +325,7 @@ pub fn check(s: &dyn Scenario, opts: &CheckOpts) -> i32 {
             first.tape.clone(),
             |cand| {
                 let t = Tape::replay(cand.to_vec());
-                match run_guarded(s, kind, t, false) {
+                match run_guarded(s, kind, opts.tier, t, false) {
                     Ok((out, rec)) => match out.violation {
                         Some(v) if v.ident() == ident => Some(rec),
                         _ => None,
@@ -327,7 +335,7 @@ pub fn check(s: &dyn Scenario, opts: &CheckOpts) -> i32 {
             },
             Duration::from_secs(20),
         );
-        let (final_out, _) = run_guarded(s, kind, Tape::replay(shrunk.clone()), true)
+        let (final_out, _) = run_guarded(s, kind, opts.tier, Tape::replay(shrunk.clone()), true)
             .unwrap_or_else(|_| (RunOut::default(), Vec::new()));
         let final_violation = final_out.violation.clone().unwrap_or_else(|| first.violation.clone());
         let path = dir.join("replays").join(format!("{}-{}-{}.json", s.id(), opts.seed, first.idx));
@@ -481,8 +489,9 @@ pub fn replay(scenarios: &[Box<dyn Scenario>], path: &Path) -> i32 {
         Some(i) => RunKind::Sweep(i),
         None => RunKind::Random,
     };
-    println!("replaying {} ({}) {:?} with {} tape entries", s.id(), s.name(), kind, tape.len());
-    match run_guarded(s.as_ref(), kind, Tape::replay(tape), true) {
+    let tier = if doc["tier"].as_str() == Some("thorough") { Tier::Thorough } else { Tier::Quick };
+    println!("replaying {} ({}) {:?} tier={} with {} tape entries", s.id(), s.name(), kind, tier.name(), tape.len());
+    match run_guarded(s.as_ref(), kind, tier, Tape::replay(tape), true) {
         Err(msg) => {
             eprintln!("HARNESS ERROR: {}", msg);
             2
@@ -523,7 +532,7 @@ pub fn replay(scenarios: &[Box<dyn Scenario>], path: &Path) -> i32 {
 pub fn run_hash(s: &dyn Scenario, tier: Tier, seed: u64, idx: u64) -> Result<u64, String> {
     let kind = kind_of(s, tier, idx);
     let tape = Tape::generate(tape::mix(&[seed, scenario_salt(s), idx]));
-    let (out, rec) = run_guarded(s, kind, tape, true)?;
+    let (out, rec) = run_guarded(s, kind, tier, tape, true)?;
     let mut h = crate::common::fnv(out.log.join("\n").as_bytes());
     for v in &rec {
         h = tape::mix(&[h, *v]);
